@@ -6,6 +6,7 @@ import (
 	"encoding/hex"
 	"encoding/json"
 	"fmt"
+	"hash/fnv"
 	"io"
 	"log"
 	"os"
@@ -38,6 +39,12 @@ import (
 // and whose Sync commits them.  What every sink has NOT committed of what the IO core has written
 // is observed at the moment control is lost: in the terminal hook, in recover / the deferred
 // function, and - for real child processes - in the sinks' files after the process is gone.
+// Samplers that really drop (c05node tag 8, NewSamplerWithOptions(core, 1h, first, thereafter)): all calls of a
+// case go to ONE logger, so every repeat of a level + message counts up the samplers it reaches and the
+// 2nd..nth repeat of a terminal entry is dropped by a sampler with a small first / thereafter while the
+// accepting cores before, between and after it in the tee must still be written and synced.  Every sampler
+// reports its decision through its SamplerHook (c05env.samp; child processes: the events file); the
+// counter a message falls into (fnv32a mod 4096) is shipped with every call.
 // Wire format: see coq/theories/C06/Model.v.
 
 type c06method struct{ Recv, Kind, Suffix int }
@@ -265,14 +272,15 @@ func (cl c06call) sx() SX {
 	if len(cl.T) > 2048 {
 		how = L(I(cl.A), I(cl.V), Str(fmt.Sprintf("%d bytes", len(cl.T)))) // replay only
 	}
-	if cl.Lens == nil {
-		return L(I(cl.M.Recv), I(cl.M.Kind), I(cl.M.Suffix), I(int(cl.L)), Str(cl.message()), how)
-	}
 	lens := make([]SX, len(cl.Lens))
 	for i, n := range cl.Lens {
 		lens[i] = I(n)
 	}
-	return L(I(cl.M.Recv), I(cl.M.Kind), I(cl.M.Suffix), I(int(cl.L)), Str(cl.message()), how, L(lens...))
+	// the sampler counter the message falls into: sampler.go's fnv32a ("adapted from hash/fnv") mod 4096
+	msg := cl.message()
+	h := fnv.New32a()
+	h.Write([]byte(msg))
+	return L(I(cl.M.Recv), I(cl.M.Kind), I(cl.M.Suffix), I(int(cl.L)), Str(msg), how, L(lens...), I(int(h.Sum32()%4096)))
 }
 
 type c06case struct {
@@ -471,10 +479,12 @@ func (cs *c06case) stackOf(id int) *c06ws {
 
 // JSON-able mirror of c05node (for the child process)
 type c05nodeJ struct {
-	Tag  int
-	ID   int
-	En   *c05enJ
-	Kids []*c05nodeJ
+	Tag   int
+	ID    int
+	En    *c05enJ
+	Kids  []*c05nodeJ
+	First int // tag 8: NewSamplerWithOptions(.., first, thereafter)
+	There int
 }
 type c05enJ struct {
 	Kind int
@@ -484,7 +494,7 @@ type c05enJ struct {
 }
 
 func toJ(n *c05node) *c05nodeJ {
-	j := &c05nodeJ{Tag: n.tag, ID: n.id}
+	j := &c05nodeJ{Tag: n.tag, ID: n.id, First: n.first, There: n.there}
 	if n.en != nil {
 		j.En = &c05enJ{Kind: n.en.kind, T: n.en.t, Cell: n.en.cell}
 		if n.en.kind == 2 {
@@ -502,7 +512,7 @@ func toJ(n *c05node) *c05nodeJ {
 	return j
 }
 func fromJ(j *c05nodeJ) *c05node {
-	n := &c05node{tag: j.Tag, id: j.ID}
+	n := &c05node{tag: j.Tag, id: j.ID, first: j.First, there: j.There}
 	if j.En != nil {
 		n.en = &c05en{kind: j.En.Kind, t: j.En.T, cell: j.En.Cell}
 		for i, b := range j.En.Tbl {
@@ -761,6 +771,7 @@ func c06run(cs *c06case) SX {
 	outs := make([]SX, len(cs.Calls))
 	for i, cl := range cs.Calls {
 		env.events = env.events[:0]
+		env.samp = env.samp[:0]
 		customRan = -1
 		pend = nil
 		lens = lens[:0]
@@ -787,7 +798,12 @@ func c06run(cs *c06case) SX {
 		default:
 			term = L(I(2))
 		}
-		outs[i] = L(L(evs...), term, pend)
+		// the decisions the samplers reported through their hooks during this call
+		reps := make([]SX, len(env.samp))
+		for k, r := range env.samp {
+			reps[k] = L(I(r.k), Bool(r.dropped))
+		}
+		outs[i] = L(L(evs...), term, pend, L(reps...))
 	}
 	return L(L(outs...), L())
 }
@@ -846,6 +862,13 @@ func c06child(*Ctx) {
 		return &c06tap{id, &zapcore.BufferedWriteSyncer{WS: f}, evf}
 	}
 	env.onHook = func(id int) { fmt.Fprintf(evf, "2 %d\n", id) }
+	env.onSamp = func(k int, dropped bool) {
+		d := 0
+		if dropped {
+			d = 1
+		}
+		fmt.Fprintf(evf, "S %d %d\n", k, d)
+	}
 	lg := c06logger(&cs, env, func(k int) { fmt.Fprintf(evf, "T 3 %d\n", k) })
 	cl := cs.Calls[0]
 	done := make(chan bool, 1)
@@ -897,7 +920,7 @@ func c06runChild(c *Ctx, cs *c06case) (SX, error) {
 		return nil, fmt.Errorf("child set-up failed: %s", stderr.String())
 	}
 	evb, _ := os.ReadFile(filepath.Join(dir, "events"))
-	var evs []SX
+	var evs, reps []SX
 	var term SX = L()
 	returned := false
 	written := map[int][]byte{} // sink-stack cases: what each leaf's IO core wrote, from the events file
@@ -911,6 +934,9 @@ func c06runChild(c *Ctx, cs *c06case) (SX, error) {
 		case strings.HasPrefix(line, "P"):
 			v, _ := hex.DecodeString(strings.TrimSpace(line[1:]))
 			panicValue, havePanicValue = string(v), true
+		case strings.HasPrefix(line, "S "):
+			fmt.Sscanf(line, "S %d %d", &a, &b)
+			reps = append(reps, L(I(a), I(b)))
 		case line == "T 2":
 			term = L(I(2))
 		case strings.HasPrefix(line, "T 3"):
@@ -963,7 +989,7 @@ func c06runChild(c *Ctx, cs *c06case) (SX, error) {
 			pend = append(pend, L(ps...))
 		}
 	}
-	return L(L(L(L(evs...), term, L(pend...))), L(fl...)), nil
+	return L(L(L(L(evs...), term, L(pend...), L(reps...))), L(fl...)), nil
 }
 
 // ---------- generation ----------
@@ -1378,8 +1404,21 @@ func c06makePlan(c *Ctx, emitTable bool) *c06plan {
 		{teeN(leafN(0, thr(0)), hookN(leafN(1, thr(6)), 3), wrapN(5, leafN(2, atom(0)))), []int8{2}}, // tee: enabled, disabled+hook, sampler over AtomicLevel
 		{filtN(teeN(leafN(0, thr(-1)), leafN(1, never)), thr(5)), nil},                               // only fatal passes the filter
 		{wrapN(6, hookN(leafN(0, thr(4)), 1)), nil},                                                  // lazy + hook, enabled from panic
+		// samplers that really drop BEFORE, BETWEEN and AFTER accepting cores of a tee (one of them hooked, one on an
+		// AtomicLevel that lets DPanic and above through); first = 0 drops from the very first entry on
+		{teeN(sampN(leafN(0, thr(-1)), 1, 0), leafN(1, thr(-1)), sampN(hookN(leafN(2, thr(0)), 4), 2, 3), leafN(3, atom(0)), sampN(leafN(4, thr(-1)), 0, 2)), []int8{3}},
+		// cores that decline - filters that are never enabled or let only fatal through, a hooked disabled leaf, a lazy
+		// no-op core, a sampled filter, a lazy hooked disabled leaf, a sampler (under With) that drops everything, a
+		// no-op core, a disabled leaf under a sampler and under a lazy core - before, between and after accepting cores
+		{teeN(filtN(leafN(0, thr(-1)), never), leafN(1, thr(-1)), hookN(leafN(2, thr(6)), 3), filtN(leafN(3, thr(-1)), thr(5)), wrapN(6, nopN()), leafN(4, thr(2)),
+			sampN(filtN(leafN(5, thr(-1)), thr(5)), 1, 0), wrapN(6, hookN(leafN(6, thr(6)), 7)), wrapN(7, sampN(leafN(7, thr(-1)), 0, 0)), leafN(8, thr(4)),
+			filtN(leafN(9, thr(-1)), never), nopN(), wrapN(5, leafN(10, thr(6))), wrapN(6, leafN(11, thr(6)))), nil},
+		// a sampler on top of the whole tee (as zap.Config builds it) over sampled, lazy and plain branches
+		{sampN(teeN(leafN(0, thr(-1)), sampN(leafN(1, thr(0)), 0, 3), wrapN(6, sampN(teeN(leafN(2, thr(-1)), nopN()), 2, 0)), leafN(3, thr(3)), sampN(leafN(4, thr(-1)), 1, 1)), 3, 2), nil},
 	}
+	sampledShapes := []int{6, 7, 8}
 	hooks := []c06hook{{0, 0}, {1, 0}, {2, 0}, {3, 0}, {5, 7}}
+	dstacks := c06directedStacks()
 	// directed, in-process: every method x level on each shape, over hook settings x development
 	for si, sh := range shapes {
 		for hi, hp := range hooks {
@@ -1460,6 +1499,65 @@ func c06makePlan(c *Ctx, emitTable bool) *c06plan {
 			}
 		}
 	}
+	// child processes on the compositions with dropping samplers and declining cores: every method x terminal level,
+	// the default actions; a sampler with first = 0 drops the very first entry, so the real exit / panic happens
+	// while a sibling of an accepting core has just discarded its copy
+	nsampled := 0
+	for _, si := range sampledShapes {
+		sh := shapes[si]
+		for _, tc := range c06terminalPairs(table) {
+			tc.T = []byte(c06msg)
+			if tc.M.Recv == 4 {
+				tc.V = nsampled % 8
+			} else {
+				tc.A = nsampled % 3
+			}
+			cs := &c06case{Tree: toJ(sh.t), Cells: sh.cells, Dev: nsampled%7 != 6 || tc.L != 3, Child: true, Variant: nsampled % 2, Calls: []c06call{tc}}
+			if nsampled%4 == 1 {
+				cs.OnFatal, cs.OnPanic = c06hook{1, 0}, c06hook{1, 0}
+			}
+			nsampled++
+			plan.add(cs, "child-sampled", "")
+		}
+	}
+	// the same terminal call again and again on ONE logger (a server that recovers from Logger.Panic per request, a
+	// Fatal with a hook that does not exit): 1st .. 5th repeat of the same level + message through every method,
+	// each (method, level) with a message of its own so that every sampler counts from 1; what the accepting cores
+	// hold is observed at the moment control is lost (custom hook, else recover / Goexit), with sink stacks below
+	// the leaves in half of the cases
+	nrep := 0
+	for _, si := range append([]int{3}, sampledShapes...) {
+		sh := shapes[si]
+		for hi, hp := range []c06hook{{5, 7}, {0, 0}, {2, 0}} {
+			for _, dev := range []bool{true, false} {
+				cs := &c06case{Tree: toJ(sh.t), Cells: sh.cells, Dev: dev, OnPanic: hp, OnFatal: []c06hook{{5, 9}, {2, 0}, {3, 0}}[(hi+nrep)%3], Variant: nrep % 2}
+				if nrep%2 == 0 {
+					_, leaves, _ := sh.t.size()
+					for k := 0; k < leaves; k++ {
+						cs.Stacks = append(cs.Stacks, dstacks[(nrep+3*k)%len(dstacks)])
+					}
+				}
+				for k, tc := range c06terminalPairs(table) {
+					if cs.expectExit(tc.L) {
+						continue
+					}
+					tc.T = []byte(fmt.Sprintf("request %d failed", k))
+					if tc.M.Recv == 4 {
+						tc.V = (k + nrep) % 8
+					}
+					for rep := 0; rep < 5; rep++ {
+						cs.Calls = append(cs.Calls, tc)
+					}
+					if k%4 == 0 {
+						// an entry below the sync threshold in between: it stays in the buffers
+						cs.Calls = append(cs.Calls, c06call{M: c06method{0, 4, 0}, L: 2, T: []byte("recovered")})
+					}
+				}
+				nrep++
+				plan.add(cs, "repeat", "")
+			}
+		}
+	}
 	// zapio.Writer at terminal levels, alone: with the level disabled Writer.Write returns early and
 	// nothing terminates (known finding zapio-terminal-disabled; tagged exactly when disabled)
 	for _, sh := range shapes {
@@ -1480,8 +1578,7 @@ func c06makePlan(c *Ctx, emitTable bool) *c06plan {
 	}
 	// sink stacks, in-process: compositions with leaves x directed stacks (rotating over the leaves) x hook
 	// settings under which Panic / Fatal do not end the process x development
-	dstacks := c06directedStacks()
-	stackShapes := []int{0, 3, 4, 5}
+	stackShapes := []int{0, 3, 4, 5, 6}
 	panicHooks := []c06hook{{0, 0}, {5, 7}, {2, 0}, {1, 0}, {3, 0}}
 	fatalHooks := []c06hook{{5, 9}, {2, 0}, {3, 0}, {5, 9}, {0, 0}}
 	nstack := 0
@@ -1543,7 +1640,7 @@ func c06makePlan(c *Ctx, emitTable bool) *c06plan {
 				if tc.M.Recv == 4 {
 					tc.V = nchildStack % 8
 				}
-				sh := shapes[[]int{0, 3}[nchildStack%2]]
+				sh := shapes[[]int{0, 3, 6}[nchildStack%3]]
 				cs := &c06case{Tree: toJ(sh.t), Cells: sh.cells, Dev: true, Child: true, Variant: nchildStack % 2, Calls: []c06call{tc}}
 				if nchildStack%3 == 1 {
 					cs.OnFatal, cs.OnPanic = c06hook{1, 0}, c06hook{1, 0}
@@ -1563,6 +1660,7 @@ func c06makePlan(c *Ctx, emitTable bool) *c06plan {
 	}
 	for k := 0; k < n; k++ {
 		g := c05newGen(r.Fork())
+		g.dropping = k%4 != 3 // three quarters of the trees with samplers that really drop (small first / thereafter)
 		t := g.tree(g.r.Range(0, 4))
 		cs := &c06case{Tree: toJ(t), Cells: g.cells, Dev: g.r.Bool(), Variant: g.r.Intn(2)}
 		pick := func(k int) c06hook {
